@@ -122,7 +122,8 @@ type World struct {
 	// ProbeDenoms are extra (possibly non-existing) denom ids used as query arguments.
 	ProbeDenoms []string
 	// block bookkeeping for crash/re-deliver and the twin
-	blk *BlockRec
+	checkDirty bool
+	blk        *BlockRec
 	// Blocks lists every committed block of the current chain.
 	Blocks     []*BlockRec
 	Twin       *Twin
@@ -172,6 +173,10 @@ func New(opt Options) (*World, error) {
 	c, err := simnet.NewChain(db, opt.Dir, g)
 	if err != nil {
 		return nil, err
+	}
+	if opt.OnDisk {
+		dir := opt.Dir
+		c.ReopenDB = func() (dbm.DB, error) { return dbm.NewGoLevelDB("app", dir) }
 	}
 	w := &World{Opt: opt, C: c, Accts: accts,
 		AOL: NewAolModel(), DID: NewDidModel(), PNFT: NewPnftModel(), Authz: map[string]bool{},
@@ -325,6 +330,10 @@ func (w *World) Apply(s Step) error {
 		return w.applyCommit(3)
 	case "queries":
 		return w.applyQueries(s.Queries)
+	case "simulate":
+		return w.applySimulate(s.Tx, false)
+	case "checktx":
+		return w.applySimulate(s.Tx, true)
 	}
 	return fmt.Errorf("unknown step kind %q", s.Kind)
 }
@@ -548,6 +557,7 @@ func (w *World) applyCommit(dt int64) error {
 		return &Violation{w.panicProp(), err.Error()}
 	}
 	w.pendDT = dt
+	w.checkDirty = false
 	w.snap()
 	w.shape("commit")
 	w.blk.Hash, w.blk.Height = w.C.App.LastCommitID().Hash, w.C.Height
@@ -645,7 +655,10 @@ func (w *World) applyRestart() error {
 // applyExportImport commits any open block, exports the genesis and continues on a fresh
 // chain initialised from it.
 func (w *World) applyExportImport() error {
-	if w.C.InBlock {
+	// the application exports from its check state (as `panacead export` does on a stopped
+	// node, where it equals the committed state); CheckTx calls made by this harness since
+	// the last Commit would leak into the export, so a block is committed first
+	if w.C.InBlock || w.checkDirty {
 		if err := w.applyCommit(w.pendDT); err != nil {
 			return err
 		}
